@@ -25,7 +25,7 @@ class AString(Parseable[bytes]):
     """
 
     _pattern = re.compile(
-        br'[\x21\x23\x24\x26\x27\x2B-\x5B\x5D\x5E-\x7A\x7C\x7E]+')
+        br'[\x21\x23\x24\x26\x27\x2B-\x5B\x5D\x5E-\x7A\x7C-\x7E]+')
 
     def __init__(self, string: bytes, raw: bytes | None = None) -> None:
         super().__init__()
